@@ -80,7 +80,21 @@ def pass1Step (ft : FileType) (k : Int) (s : Sess) (e : Entry) : Sess :=
   else if (find s.nodes (incrementFileId k e.inst.id)).isSome then s     -- "instance #n already exists. Data lost"
   else append s (stub k e.inst) (entryState ft e)
 
-def pass1 (ft : FileType) (k : Int) (s : Sess) (es : List Entry) : Sess := es.foldl (pass1Step ft k) s
+/-- does the record count as "yielded no instance" (`++_entsNotCreated`)?  A record whose id exists already does; a skipped
+    `D` entry does iff `Generated.deletedCountsAsFailure` -/
+def failsPass1 (ft : FileType) (k : Int) (s : Sess) (e : Entry) : Bool :=
+  if skipped ft e then deletedCountsAsFailure else (find s.nodes (incrementFileId k e.inst.id)).isSome
+
+/-- `ReadData1` with its abort rule: after each record, `if( _entsNotCreated > _maxErrorCount )` the pass is abandoned
+    (`nc` = records that yielded no instance so far) -/
+def pass1Go (ft : FileType) (k : Int) : Nat → Sess → List Entry → Sess
+  | _, s, [] => s
+  | nc, s, e :: es =>
+    let nc' := if failsPass1 ft k s e then nc + 1 else nc
+    let s' := pass1Step ft k s e
+    if nc' > maxErrorCount then s' else pass1Go ft k nc' s' es
+
+def pass1 (ft : FileType) (k : Int) (s : Sess) (es : List Entry) : Sess := pass1Go ft k 0 s es
 
 /-- where a value stands while it is read -/
 inductive Ctx where
